@@ -491,6 +491,30 @@ pub fn gen_memops(w: &mut impl Write, thorough: bool, seed: u64) {
             } }
         }
     }
+    // a packet larger than 64 KiB (pattern not periodic in 2^8, 2^15 or 2^16): absolute / indirect loads whose 32-bit immediate does not
+    // fit 15 or 16 bits, and accesses at the ends of the 16-bit offset range from a pointer 32768 bytes into the packet
+    let huge: Vec<u8> = (0..66_000usize).map(|i| ((i * 31 + i / 256 * 7 + i / 32768 * 101 + i / 65536 * 57 + 3) % 253) as u8 | 1).collect();
+    for &(labs, lind) in &[(0x30u8, 0x50u8), (0x38, 0x58)] {
+        for imm in [0x7ffei32, 0x7fff, 0x8000, 0x8001, 0xfffe, 0xffff, 0x1_0000, 0x1_0001, 0x1_0003, 65_990] {
+            let mut p = vec![]; init_regs(&mut p); p.extend(ins(labs, 0, 0, 0, imm)); fold_exit(&mut p);
+            line(w, "memops", &p, &huge, &[], "budget=300");
+        }
+        for imm in [0x7fffi32, 0x8000, 0xffff, 0x1_0000] { for idx in [3u64, 0x8000] {
+            let mut p = vec![]; init_regs(&mut p); p.extend(lddw(7, idx)); p.extend(ins(lind, 0, 7, 0, imm)); fold_exit(&mut p);
+            line(w, "memops", &p, &huge, &[], "budget=300");
+        } }
+    }
+    for &(ldx, st, stx, _wd) in &widths { for &off in &[32767i16 - 8, -32768, 32000] {
+        let v = r.next();
+        let mut p = vec![]; init_regs(&mut p);
+        p.extend(lddw(6, 0)); let patch_slot = p.len() / 8 - 2;
+        p.extend(lddw(3, v));
+        p.extend(ins(ldx, 4, 6, off, 0)); p.extend(ins(stx, 6, 3, off, 0)); p.extend(ins(ldx, 5, 6, off, 0));
+        p.extend(ins(st, 6, 0, off.wrapping_add(if off < 0 { 16 } else { -16 }), v as i32));
+        p.extend(ins(0xb7, 6, 0, 0, 0));
+        fold_exit(&mut p);
+        writeln!(w, "exec tag=memops prog={} mem={} mbuff=- patch={}:mem:32768 budget=300", hex(&p), hex(&huge), patch_slot).unwrap();
+    } }
 }
 
 /// random structured programs on packet / metadata inputs, with helpers and local calls
